@@ -175,10 +175,12 @@ def generate(rng, tier="quick"):
                        "share_root_with": 0 if i in shared else None,
                        "store_from": (rng.randrange(i) if (i > 0 and i not in shared and rng.random() < 0.2) else None),
                        # this validator object is an instance of an EARLIER actor's (possibly derived) class
-                       "class_from": (rng.randrange(i) if (i > 0 and rng.random() < 0.3) else None),
+                       "class_from": (rng.randrange(i) if (i > 0 and i not in shared and rng.random() < 0.3) else None),
                        # ... or is simply given the FormatChecker OBJECT an earlier actor uses (as everybody who passes
                        # jsonschema.draft7_format_checker does)
-                       "fc_from": (rng.randrange(i) if (i > 0 and rng.random() < 0.35) else None)})
+                       # (a shared-root actor takes neither: its alone-run is built without the root's owner, and which
+                       #  checker / class it ends up with must not depend on that)
+                       "fc_from": (rng.randrange(i) if (i > 0 and i not in shared and rng.random() < 0.35) else None)})
     if mode == "coop":
         bias = rng.choice(["uniform", "runs", "alternate"])
         length = rng.randint(10, 60)
@@ -371,6 +373,8 @@ def build_actors(scn, router):
         donor = actors[sj] if (sj is not None and sj < i and src is None) else None
         cj = spec.get("class_from")
         fj = spec.get("fc_from")
+        if src is not None:
+            cj = fj = None          # a shared-root actor takes class and checker from nobody (see exec_alone)
         actors.append(Actor(world, spec["cfg"], router, shared_from=src, store_from=donor,
                             class_from=actors[cj] if (cj is not None and cj < i) else None,
                             fc_from=actors[fj] if (fj is not None and fj < i) else None,
@@ -594,6 +598,8 @@ def exec_alone(arg):
         warnings.simplefilter("error")      # python -W error: a warning issued by the library is an exception there
     one = copy.deepcopy(scn)
     spec = one["actors"][i]
+    if spec.get("share_root_with") is not None:
+        spec["class_from"] = spec["fc_from"] = None     # (as in the interleaved run, see build_actors)
     spec["share_root_with"] = None
     sj = spec.get("store_from")
     if sj is None:
